@@ -4,7 +4,7 @@ CONSTANTS
   MaxChats = 1
   MaxSteps = 99
   GenDepth = 28
-  Ops = {"closebegin","closeend","churn","connect","login","agreed","setinfo","userlist","close","pm","getinfo","broadcast","setuser","kick","invitenew"}
+  Ops = {"goneidle","wake","closebegin","closeend","churn","connect","login","agreed","setinfo","userlist","close","pm","getinfo","broadcast","setuser","kick","invitenew"}
   Thin = TRUE
 INIT Init
 NEXT Next
